@@ -21,7 +21,7 @@ def strat_sync(tier):
 
 
 def check(prog, ctx):
-    env = engine.run_program(prog)
+    env = oracles.first(prog)
     engine.event_grammar(env)
     engine.item_checks(env)
     viol = oracles.clauses(env, "C05.")
